@@ -38,6 +38,8 @@ func checkC04(r *core.Run) {
 	r.Assume(aCG)
 	ruleFlows(r, "C04")
 	ruleRefundBooked(r)
+	r.Rule("T-refund-class: in market.Withdraw the full-duration price is refunded only for a waiting shard, the remaining-term price only for a completed shard of this order; no other shard state contributes")
+	ruleWithdrawClass(r)
 
 	// ---- Store
 	if fn := r.Func("T-charge", "sao/keeper.msgServer.Store"); fn != nil {
@@ -190,9 +192,14 @@ func checkC05(r *core.Run) {
 	r.Rule("T-cancel-pre: every call of model.CancelOrder is preceded by a for-all RemoveShard over the order's shards, or dominated by order.Status == Pending; G-refund-state: and by order.Status != Completed")
 	r.Rule("CAP-reserve: {Store, Ready, timeout handler} have no write on node:Pledge/value/ and no bank inflow into the node module")
 	r.Rule("T-sched-meta: RemoveMetadata(d) is accompanied by removeDataExpireBlock(d, ...) unless every caller is the schedule consumer (model end-blocker)")
+	r.Rule("T-rollback: RollbackMeta restores OrderId from the last element of the model's own Orders list and Commit from the last element of its own Commits list (index len(same list)-1); status back to complete")
 	r.Assume(aDeps)
 	r.Assume(aCG)
 	ruleFlows(r, "C05")
+	rb := "model/keeper.Keeper.RollbackMeta"
+	evalStoreVal(r, "T-rollback", rb, "model/types.Metadata.OrderId", []string{"*.Orders[last]"}, "the previously committed version's order is the last entry of the model's Orders list (Orders and Commits are not parallel: a renewal appends an order without a commit)")
+	evalStoreVal(r, "T-rollback", rb, "model/types.Metadata.Commit", []string{"*.Commits[last]*"}, "the previously committed version is the last entry of the model's Commits list")
+	evalStoreVal(r, "T-rollback", rb, "model/types.Metadata.Status", []string{constVal(r, "model/types", "MetaComplete")}, "a rolled-back model is complete again (not left locked in progress)")
 
 	// ---- T-cancel
 	co := "model/keeper.Keeper.CancelOrder"
